@@ -119,6 +119,31 @@ func genC20(r *rand.Rand, thorough bool) *c20Input {
 		}
 		space[i] = h
 	}
+	if r.Intn(8) == 0 {
+		// many hashes sharing a first byte, added in one batch: more than 255 land in one fan-out bucket per flush
+		in := &c20Input{BatchSize: []uint32{0, 400, 1000}[r.Intn(3)]}
+		first := firsts[r.Intn(len(firsts))]
+		k := 256 + r.Intn(80)
+		mk := func(i int) string {
+			h := make([]byte, 16)
+			h[0] = first
+			h[1] = byte(i >> 8)
+			h[2] = byte(i)
+			h[9] = byte(i * 7)
+			return hx(h)
+		}
+		for _, i := range r.Perm(k) {
+			in.Ops = append(in.Ops, []string{"add", mk(i)})
+		}
+		in.Ops = append(in.Ops, []string{"flush"})
+		if r.Intn(2) == 0 {
+			in.Ops = append(in.Ops, []string{"reopen"})
+		}
+		for i := 0; i < k+5; i += 1 + r.Intn(4) {
+			in.Ops = append(in.Ops, []string{"has", mk(i)})
+		}
+		return in
+	}
 	in := &c20Input{}
 	switch r.Intn(4) {
 	case 0:
